@@ -116,8 +116,10 @@ Requester(sp, req) ==
   IF req.op = "LOCKT" \/ req.newlo THEN <<req.cid, req.lk>>
   ELSE IF req.st \in DOMAIN sp.lofs THEN <<sp.lofs[req.st].c, sp.lofs[req.st].lk>> ELSE <<0, "">>
 
-DeniedCheck(sp, req, r) ==
-  IF r.st = "DENIED" /\ req.op \in {"LOCK", "LOCKT"}
+\* (Only for a request that was evaluated now: a retransmission gets the
+\* reply of the first execution, whose conflicting lock may be gone since.)
+DeniedCheck(sp, req, ctx, r) ==
+  IF r.st = "DENIED" /\ req.op \in {"LOCK", "LOCKT"} /\ ctx \notin {"replay", "laxretry"}
      /\ ~(DeniedOK(sp, req, r.den) /\ <<r.den.cid, r.den.lk>> # Requester(Expire(sp), req))
   THEN "C20:denied-reports-nonconflicting-lock" ELSE "ok"
 
@@ -347,7 +349,7 @@ TOp ==
                               IF DupOfInFlight(s, req)
                               THEN "C19:retransmission-of-in-flight-request-not-answered-with-its-result"
                               ELSE "NC:request-completed-while-its-open-owner-has-a-request-in-flight"
-                       ELSE First(<<v1, HashVerdict(o.ctx, ln), DeniedCheck(s, req, Line.rep),
+                       ELSE First(<<v1, HashVerdict(o.ctx, ln), DeniedCheck(s, req, o.ctx, Line.rep),
                                     EffectsVerdict(s, o.s, o.ctx, v1 = "ok", Line),
                                     LeafVerdict(o.s, Line.leaf), HookC20(o.s, Line.hook)>>)
         /\ Observe(o.s, Line) /\ Remember(Line)
